@@ -198,7 +198,8 @@ def registry_judge(ctx, trace, tag):
     rejected, lines, resets = registry_accept(ctx, trace, "T:registry histories " + tag)
     for idx, e in rejected:
         sc = scenario_of(lines, resets, idx)
-        st = [x for x in sc if x.get("ev") == "start" and x.get("g") == e.get("g")]
+        a = max(i for i in resets if i <= idx)
+        st = [x for x in sc[:idx - a] if x.get("ev") == "start" and x.get("g") == e.get("g")]   # the call that ended here
         ctx.violation("core/registry history not linearizable (%s)" % (st[-1]["op"] if st else "?"),
                       "no linearization of the recorded concurrent history explains result %r (log line %d)" % (e.get("res"), idx + 1),
                       dict(event=e, line=idx + 1, scenario=vlib._shorten(sc, 300), registry=True))
@@ -281,6 +282,13 @@ def run(ctx):
     total_races += race_clause(ctx, pre, "hammer", dict(registry=True))
     ctx.stage("race detector", reports=total_races, runs=len(plans) + len(rplans) + 1)
     # ---------------- negative controls
+    pre, env = gorace(ctx, "selfrace")
+    ctx.run([drv, "-selfrace"], env=ctx.env(**env), ok_codes=(0, 66))
+    ctl = race_reports(pre)
+    if not ctl or not all(sig.startswith("harness:main.selfRace") for sig, _ in ctl):
+        raise vlib.Infra("race-detector control: the deliberate harness race was not reported (%s): detector not attached" % [c[0] for c in ctl])
+    ctx.stage("NC:race detector", deliberate_harness_race="reported", reports=len(ctl))
+    ctx.log("negative control (race detector): deliberate harness race reported")
     if not ctx.violations:
         ctx.negative_control("Trace_Concurrency", last[0], corrupt_conc, reset="reset")
         registry_control(ctx, rlast[0])
